@@ -25,6 +25,11 @@ add("C12", "exploration",
     "Complete (|A|,|P|) grid for the 12-byte IV, every IV length 1..64 with five IV patterns and size classes, 0xff in every IV position, every single-bit change of IV/AAD/ciphertext/key for 60 shapes per key, IVs constructed by deterministic search so that the 32-bit counter wraps; ciphertext, tag, decryption and recomputed tag compared with NIST GCM over the reference SM4.",
     "Go crypto/cipher GCM (any nonce size) as SP 800-38D; refsm4", "DESIGN.md §3 C12")
 
+add("C19", "model_checking",
+    "deviation-bounded exhaustive exploration of environment answers (every short/zero/EOF-carrying read of the source, every write chunk size) on the real streaming reader/writer/block helpers against a byte-slice model",
+    "The source reader's answers and the writer chunk sizes are choice points owned by the explorer; all executions with up to 2-4 deviations from the default answer (per length class), for every length in the stated ranges and block sizes 8 and 16, run on the real code and are compared with source||pad, the unpadded data, and CBC over an independent SM4; every invalid final-block pattern must be reported as an error.",
+    "sources only fail with io.EOF; refsm4 + crypto/cipher CBC", "DESIGN.md §3 C19")
+
 NA_REASON = "check not built yet in this session (work in progress; DESIGN.md §3 describes the planned bounded exhaustive check)"
 
 def main():
